@@ -154,9 +154,23 @@ impl<'tcx> Cx<'tcx> {
                         }
                     }
                 }
+                // promoted enum constants (`&Some(true)`, `&None`): evaluated and pretty printed, e.g. "&Option::<bool>::Some(true)"
+                let mut pretty = String::from("null");
+                if val == "null" && ty.peel_refs().is_enum() {
+                    if let Const::Unevaluated(uv, _) = c.const_ {
+                        if let Ok(cv) = self.tcx.const_eval_resolve(self.env, uv, rustc_span::DUMMY_SP) {
+                            let mut shown = (cv, ty);
+                            if let (ty::Ref(_, inner, _), ConstValue::Scalar(rustc_middle::mir::interpret::Scalar::Ptr(ptr, _))) = (ty.kind(), cv) {
+                                let (prov, off) = ptr.prov_and_relative_offset();
+                                shown = (ConstValue::Indirect { alloc_id: prov.alloc_id(), offset: off }, *inner);
+                            }
+                            pretty = esc(&format!("{}", Const::Val(shown.0, shown.1)).chars().take(200).collect::<String>());
+                        }
+                    }
+                }
                 let fndef = if let ty::FnDef(d, _) = ty.kind() { esc(&self.tcx.def_path_str(*d)) } else { "null".into() };
                 let cdbg = if val == "null" && fndef == "null" { esc(&format!("{:?}", c.const_).chars().take(160).collect::<String>()) } else { "null".into() };
-                format!("{{\"op\":\"const\",\"ty\":{},\"val\":{},\"fn\":{},\"cdbg\":{}}}", esc(&ty.to_string()), val, fndef, cdbg)
+                format!("{{\"op\":\"const\",\"ty\":{},\"val\":{},\"fn\":{},\"cdbg\":{},\"pretty\":{}}}", esc(&ty.to_string()), val, fndef, cdbg, pretty)
             }
             #[allow(unreachable_patterns)]
             _ => format!("{{\"op\":\"other\",\"dbg\":{}}}", esc(&format!("{:?}", o))),
